@@ -4,6 +4,9 @@ import LinOp.Generated.C19Guards
 import LinOp.C19.Known
 import LinOp.C19.KnownDelegations
 import LinOp.C19.KnownDispatch
+import LinOp.C19.ProofsExt
+import LinOp.C19.KnownExt
+import LinOp.Generated.C19Ext
 /-!
 C19 — incompatible shapes and out-of-range indices raise, never mis-compute.  Property theorems.
 
@@ -739,18 +742,18 @@ def guardTable : List ((String × String) × GuardRef) := [
   (("LinearOperator", "__matmul__"), .via "matmul" ``matmulBroadcastShape_iff_torch),
   (("LinearOperator", "__mul__"), .via "mul" ``mulGuard_iff),
   (("LinearOperator", "__radd__"), .via "__add__" ``addTensorGuard_iff),
-  (("LinearOperator", "__rmatmul__"), .via "rmatmul" ``matmulBroadcastShape_iff_torch),
+  (("LinearOperator", "__rmatmul__"), .via "rmatmul" ``Ext.rmatmulGuard_iff_torch),
   (("LinearOperator", "__rmul__"), .via "mul" ``mulGuard_iff),
   (("LinearOperator", "__rsub__"), .via "__add__" ``addTensorGuard_iff),
   (("LinearOperator", "__sub__"), .via "__add__" ``addTensorGuard_iff),
   (("LinearOperator", "add"), .via "__add__" ``addTensorGuard_iff),
-  (("AddedDiagLinearOperator", "add_diagonal"), .sweepOnly),
-  (("DiagLinearOperator", "add_diagonal"), .sweepOnly),
-  (("KroneckerProductLinearOperator", "add_diagonal"), .sweepOnly),
+  (("AddedDiagLinearOperator", "add_diagonal"), .via "add_diagonal" ``Ext.diagAddDiagonal_iff_torch),
+  (("DiagLinearOperator", "add_diagonal"), .lemma ``Ext.diagAddDiagonal_iff_torch),
+  (("KroneckerProductLinearOperator", "add_diagonal"), .lemma ``Ext.kronAddDiagonal_iff_torch),
   (("LinearOperator", "add_diagonal"), .lemma ``addDiagonalGuard_iff),
-  (("LowRankRootLinearOperator", "add_diagonal"), .sweepOnly),
-  (("TriangularLinearOperator", "add_diagonal"), .sweepOnly),
-  (("ZeroLinearOperator", "add_diagonal"), .sweepOnly),
+  (("LowRankRootLinearOperator", "add_diagonal"), .lemma ``Ext.lowRankRootAddDiagonal_sound),
+  (("TriangularLinearOperator", "add_diagonal"), .via "add_diagonal" ``addDiagonalGuard_iff),
+  (("ZeroLinearOperator", "add_diagonal"), .lemma ``Ext.zeroAddDiagonal_eq_base),
   (("BatchRepeatLinearOperator", "add_jitter"), .scalarOnly),
   (("LinearOperator", "add_jitter"), .scalarOnly),
   (("ToeplitzLinearOperator", "add_jitter"), .scalarOnly),
@@ -781,7 +784,7 @@ def guardTable : List ((String × String) × GuardRef) := [
   (("ZeroLinearOperator", "matmul"), .lemma ``matmulBroadcastShape_iff_torch),
   (("LinearOperator", "mul"), .lemma ``mulGuard_iff),
   (("ZeroLinearOperator", "mul"), .lemma ``mulGuard_iff),
-  (("LinearOperator", "rmatmul"), .via "matmul" ``matmulBroadcastShape_iff_torch),
+  (("LinearOperator", "rmatmul"), .lemma ``Ext.rmatmulGuard_iff_torch),
   (("CholLinearOperator", "solve"), .lemma ``solveGuard_iff),
   (("DiagLinearOperator", "solve"), .via "matmul" ``diagMatmulGuarded_iff_torch),
   (("IdentityLinearOperator", "solve"), .lemma ``solveLeft_iff),
@@ -807,12 +810,6 @@ def unprovedEntryPoints : List (String × String) := [
   ("LowRankRootLinearOperator", "__add__"),
   ("SumLinearOperator", "__add__"),
   ("TriangularLinearOperator", "__add__"),
-  ("AddedDiagLinearOperator", "add_diagonal"),
-  ("DiagLinearOperator", "add_diagonal"),
-  ("KroneckerProductLinearOperator", "add_diagonal"),
-  ("LowRankRootLinearOperator", "add_diagonal"),
-  ("TriangularLinearOperator", "add_diagonal"),
-  ("ZeroLinearOperator", "add_diagonal"),
   ("BlockDiagLinearOperator", "inv_quad_logdet"),
   ("BlockInterleavedLinearOperator", "inv_quad_logdet"),
   ("LowRankRootAddedDiagLinearOperator", "inv_quad_logdet"),
@@ -884,5 +881,129 @@ theorem base_square_methods_guarded :
 open LinOp.Generated.C19 in
 /-- The base-class methods still contain their guards. -/
 theorem base_guards_present : baseGuards.all (fun g => g.2) = true := by decide +kernel
+
+
+/-! ## Extension session 5: per-class `add_diagonal`, `rmatmul`, the Cat constructor -/
+
+/-- **Diag / ConstantDiag / Identity / KroneckerProductDiag `add_diagonal` (and AddedDiag / KroneckerProductAddedDiag /
+LowRankRootAddedDiag, which forward to their diagonal part) accept exactly the diagonals torch accepts for
+`dense + diag_embed(d)`, with torch's result shape** — every batch rank, every diagonal shape (0-d, `(…, n)`, `(…, 1)`, extra
+batch dimensions), every `n ≠ 1`.  (`n = 1`: `diagAddDiagonal_size1_example`.) -/
+theorem diagAddDiagonal_iff_torch (A : List Nat) (n : Nat) (hn : n ≠ 1) (d s : List Nat) :
+    diagAddDiagonal A n d = .ok s ↔ addDiagonalShape? (A ++ [n, n]) d = some s :=
+  Ext.diagAddDiagonal_iff_torch A n hn d s
+
+example : diagAddDiagonal [2] 3 [4, 1, 3] = .ok [4, 2, 3, 3] := by decide
+example : diagAddDiagonal [2] 3 [5, 3] = .error .shape := by decide
+
+/-- For a 1×1 diagonal operator `broadcast_shapes` lets the diagonal grow the MATRIX: `Diag(1).add_diagonal(d : 5)` is 5×5.
+torch's `dense + diag_embed(d)` broadcasts the 1×1 matrix in the same way, so this is torch-valid and not judged (same policy as
+the `ew1` operator pairs); `addDiagonalShape?` (which demands `k = n ∨ k = 1`) is stricter here. -/
+theorem diagAddDiagonal_size1_example :
+    diagAddDiagonal [] 1 [5] = .ok [5, 5] ∧ addDiagonalShape? [1, 1] [5] = none := by decide
+
+/-- **KroneckerProduct (and KroneckerProductTriangular) `add_diagonal` ⇔ torch**, same shape, all batch ranks, `n ≠ 1`:
+the unchecked constant branches are caught by the batch broadcast of the KroneckerProductAddedDiag constructor. -/
+theorem kronAddDiagonal_iff_torch (A : List Nat) (n : Nat) (hn : n ≠ 1) (d s : List Nat) :
+    kronAddDiagonal (A ++ [n, n]) d = .ok s ↔ addDiagonalShape? (A ++ [n, n]) d = some s :=
+  Ext.kronAddDiagonal_iff_torch A n hn d s
+
+example : kronAddDiagonal [2, 4, 4] [3, 1, 1] = .ok [3, 2, 4, 4] := by decide
+example : kronAddDiagonal [2, 4, 4] [3, 4] = .error .shape := by decide
+
+/-- **LowRankRoot `add_diagonal` is sound**: whatever it accepts torch accepts, with the same shape (all batch ranks / sizes).
+It is not complete: the non-constant branch refuses a diagonal that adds batch dimensions (`lowRankRootAddDiagonal_examples`). -/
+theorem lowRankRootAddDiagonal_sound (A : List Nat) (n : Nat) (d s : List Nat)
+    (h : lowRankRootAddDiagonal (A ++ [n, n]) d = .ok s) : addDiagonalShape? (A ++ [n, n]) d = some s :=
+  Ext.lowRankRootAddDiagonal_sound A n d s h
+
+theorem lowRankRootAddDiagonal_examples :
+    lowRankRootAddDiagonal [2, 3, 3] [3, 2, 1] = .ok [3, 2, 3, 3] ∧
+    lowRankRootAddDiagonal [2, 3, 3] [3, 2, 3] = .error .shape ∧
+    addDiagonalShape? [2, 3, 3] [3, 2, 3] = some [3, 2, 3, 3] := Ext.lowRankRootAddDiagonal_examples
+
+/-- **Zero `add_diagonal` = the base-class guard** (hence `addDiagonalGuard_iff`) for operators with at most one batch
+dimension, every size and every diagonal shape. -/
+theorem zeroAddDiagonal_eq_base (A : List Nat) (hA : A.length ≤ 1) (n : Nat) (d : List Nat) :
+    zeroAddDiagonal (A ++ [n, n]) d = addDiagonalGuard (A ++ [n, n]) d :=
+  Ext.zeroAddDiagonal_eq_base A hA n d
+
+example : zeroAddDiagonal [2, 3, 3] [2, 1] = .ok [2, 3, 3] := by decide
+
+/-- With two or more batch dimensions Zero `add_diagonal` expands the diagonal to `(size(0),)` and then fails its own size
+comparison — it rejects even a 0-d diagonal (stricter than torch; raising is not a C19 violation). -/
+theorem zeroAddDiagonal_rank4_example :
+    zeroAddDiagonal [3, 1, 3, 3] [] = .error .shape ∧ zeroAddDiagonal [3, 1, 3, 3] [3] = .error .shape ∧
+    addDiagonalShape? [3, 1, 3, 3] [] = some [3, 1, 3, 3] := by decide
+
+/-- every class's `add_diagonal` resolves (C3 MRO, generated table) to a definer the model knows -/
+theorem every_add_diagonal_definer_is_modelled :
+    LinOp.Generated.C19Ext.addDiagonalDefiners.all (fun p => (addDiagKindOf p.2).isSome) = true := by decide +kernel
+
+/-- **base `rmatmul` accepts exactly what `torch.matmul(other, dense)` accepts, with torch's shape** — any batch rank of the
+operator, any operand rank (0-d, 1-d, matrix, batched). -/
+theorem rmatmulGuard_iff_torch (A : List Nat) (m n : Nat) (b s : List Nat) :
+    rmatmulGuard (A ++ [m, n]) b = .ok s ↔ rmatmulShape? (A ++ [m, n]) b = some s :=
+  Ext.rmatmulGuard_iff_torch A m n b s
+
+example : rmatmulGuard [2, 3, 4] [5, 1, 6, 3] = .ok [5, 2, 6, 4] := by decide
+example : rmatmulGuard [2, 3, 4] [1, 4] = .error .shape := by decide
+
+/-- **With `settings.debug` on, the CatLinearOperator constructor accepts exactly what `torch.cat` accepts and its `_shape`
+is torch's shape** (≥ 2 operands of any rank, cat dimension inside the rank). -/
+theorem catCtor_debug_iff (s0 s1 : List Nat) (rest : List (List Nat)) (dim : Nat) (hd : dim < s0.length) (s : List Nat) :
+    catCtor true (s0 :: s1 :: rest) dim = .ok s ↔ catShape? (s0 :: s1 :: rest) dim = some s :=
+  Ext.catCtor_debug_iff s0 s1 rest dim hd s
+
+example : catCtor true [[2, 3, 3], [2, 1, 3], [2, 4, 3]] 1 = .ok [2, 8, 3] := by decide
+
+/-- With `settings.debug` off the constructor performs no check: the shape is computed from the first operand only
+(the mismatch surfaces — or not — when the operator is used). -/
+theorem catCtor_nodebug_counterexample :
+    catCtor false [[3, 3], [2, 4]] 0 = .ok [5, 3] ∧ catShape? [[3, 3], [2, 4]] 0 = none :=
+  Ext.catCtor_nodebug_counterexample
+
+/-- **`cat_rows` on a SQUARE operator (debug on; cross / new matrices of the operator's rank, every batch rank and size)
+accepts exactly the `cross_mat`, `new_mat` for which the dense block matrix `[[A, Bᵀ], [B, D]]` exists, with its shape.**
+Full statement (not proved): the same for every rank combination, i.e. including the branch that first expands `self` to the
+broadcast batch shape when `cross_mat` has more dimensions, and the rank-mismatch rejections (swept by the harness, cells
+`cat_rows/extra-batch-*`, `batch-missing`, `cross-1d`, `new-1d`).  For RECTANGULAR operators the statement is false:
+`catRows_rect_counterexample`. -/
+theorem catRows_iff_torch_partial (A C W : List Nat) (n o n' o1 o2 : Nat) (hC : C.length = A.length)
+    (hW : W.length = A.length) (s : List Nat) :
+    catRows (A ++ [n, n]) (C ++ [o, n']) (W ++ [o1, o2]) = .ok s ↔
+      catRowsShape? (A ++ [n, n]) (C ++ [o, n']) (W ++ [o1, o2]) = some s :=
+  Ext.catRows_square_same_rank_iff A C W n o n' o1 o2 hC hW s
+
+example : catRows [2, 3, 3] [2, 2, 3] [2, 2, 2] = .ok [2, 5, 5] := by decide
+
+/-- **Defect [F13]**: `cat_rows` never checks that the operator is square.  A 4×3 operator with `cross_mat` 2×3 and a
+compensating `new_mat` 3×2 passes all three CatLinearOperator checks (`[A; B]` is 6×3, `[Bᵀ; D]` is 6×2) and yields a 6×5
+operator that is not the block matrix (torch refuses `[[A, Bᵀ], [B, D]]`: `A` has 4 rows, `Bᵀ` has 3). -/
+theorem catRows_rect_counterexample :
+    catRows [4, 3] [2, 3] [3, 2] = .ok [6, 5] ∧ catRowsShape? [4, 3] [2, 3] [3, 2] = none :=
+  Ext.catRows_rect_counterexample
+
+/-- `cat_rows` (debug on): examples of the three constructor checks against the dense block matrix. -/
+theorem catRows_examples :
+    catRows [3, 3] [2, 3] [2, 2] = .ok [5, 5] ∧ catRowsShape? [3, 3] [2, 3] [2, 2] = some [5, 5] ∧
+    catRows [3, 3] [2, 4] [2, 2] = .error .shape ∧ catRowsShape? [3, 3] [2, 4] [2, 2] = none ∧
+    catRows [3, 3] [2, 2, 3] [2, 2, 2] = .ok [2, 5, 5] ∧ catRowsShape? [3, 3] [2, 2, 3] [2, 2, 2] = some [2, 5, 5] ∧
+    catRows [3, 3] [2, 3] [3, 3] = .error .shape ∧ catRows [3, 3] [3] [1, 1] = .error .value := by decide
+
+/-- **base `add_low_rank(B)` accepts exactly what torch accepts for `dense + B @ B.mT`, with torch's shape** (all batch ranks,
+all ranks of `B`; this includes torch's own broadcasting of a 1×1 product against the matrix dimensions). -/
+theorem addLowRank_iff_torch (a b s : List Nat) :
+    addLowRank a b = .ok s ↔ addLowRankShape? a b = some s := Ext.addLowRank_iff_torch a b s
+
+example : addLowRank [2, 3, 3] [4, 1, 3, 2] = .ok [4, 2, 3, 3] := by decide
+example : addLowRank [3, 3] [4, 1] = .error .shape := by decide
+
+/-- the bodies the extension model mirrors are the ones recorded at design time (generated from /repo on every run) -/
+theorem ext_bodies_are_the_known_ones :
+    LinOp.Generated.C19Ext.addDiagonalBodies = KnownExt.knownAddDiagonalBodies ∧
+    LinOp.Generated.C19Ext.rmatmulBodies = KnownExt.knownRmatmulBodies ∧
+    LinOp.Generated.C19Ext.catBodies = KnownExt.knownCatBodies ∧
+    LinOp.Generated.C19Ext.addDiagonalDefiners = KnownExt.knownAddDiagonalDefiners := by decide +kernel
 
 end LinOp.C19
